@@ -450,6 +450,8 @@ class Builder:
 	def add_plain_struct(self, force=(), size_implicit=False, members=None, aligned=False):
 		info = StructInfo(self.type_name())
 		groups = self.random_groups(members or self.rng.randrange(1, 5), self.PLAIN_FORMS, force)
+		if all(' = make_reserved(' in line.text for group in groups for line in group):
+			groups.append(self.g_int())      # at least one settable member (see PROBES: struct-without-settable-members)
 		lines = self.merge(groups)
 		attributes = []
 		if size_implicit:
